@@ -16,7 +16,7 @@ import io
 import threading
 
 import fsspec
-from fsspec.spec import AbstractFileSystem
+from fsspec.spec import AbstractBufferedFile, AbstractFileSystem
 
 STORE = {}
 LOG = []
@@ -66,6 +66,40 @@ class TFile(io.BytesIO):
         super().close()
 
 
+BUFFERED = [None]  # None: plain file objects; int: hand out fsspec buffered files (AbstractBufferedFile) with this block size
+
+
+class TBufFile(AbstractBufferedFile):
+    """what remote filesystems (http, s3, ...) hand out: a buffered file with a block size; read/seek are logged at the same
+    API boundary as for TFile, range requests of the buffer layer are logged as 'fetch'"""
+
+    def __init__(self, fs, path, data, block_size):
+        self._data = data
+        super().__init__(fs, path, mode="rb", block_size=block_size, cache_type="readahead", size=len(data))
+
+    def _fetch_range(self, start, end):
+        LOG.append(("fetch", self.path, start, end))
+        return self._data[start:end]
+
+    def seek(self, loc, whence=0):
+        _hook("pre", "seek", self.path, loc, whence)
+        LOG.append(("seek", self.path, loc, whence))
+        return super().seek(loc, whence)
+
+    def read(self, length=-1):
+        _hook("pre", "read", self.path, length)
+        pos = self.loc
+        b = super().read(length)
+        LOG.append(("read", self.path, pos, length, len(b)))
+        return b
+
+    def close(self):
+        if not self.closed:
+            _hook("pre", "close", self.path)
+            LOG.append(("close", self.path))
+        super().close()
+
+
 class TraceFS(AbstractFileSystem):
     protocol = "vfs"
     cachable = False
@@ -90,6 +124,8 @@ class TraceFS(AbstractFileSystem):
             raise PermissionError(f"read-only filesystem: {path}")
         if path not in STORE:
             raise FileNotFoundError(path)
+        if BUFFERED[0]:
+            return TBufFile(self, path, STORE[path], BUFFERED[0])
         return TFile(path, STORE[path])
 
     def info(self, path, **kw):
